@@ -40,7 +40,7 @@ inline const char* opname (Op o) {
   return n[o];
 }
 
-struct Node { Op op; int a, b; real_t lit; std::string name; };
+struct Node { Op op; int a, b; real_t lit; std::string name; bool hasvar; };
 
 enum Cmp { LT, LE, EQ, NE, GT, GE, TRUNC, NONZERO, FINITE, SIGNBIT };
 
@@ -66,7 +66,7 @@ inline int mk_lit (real_t v) {
   Ctx& c = ctx();
   auto it = c.litcons.find (bits(v));
   if (it != c.litcons.end()) return it->second;
-  c.nodes.push_back ({LIT, -1, -1, v, ""});
+  c.nodes.push_back ({LIT, -1, -1, v, "", false});
   int id = int(c.nodes.size()) - 1;
   c.litcons[bits(v)] = id;
   return id;
@@ -74,7 +74,7 @@ inline int mk_lit (real_t v) {
 
 inline int mk_var (const std::string& name) {
   Ctx& c = ctx();
-  c.nodes.push_back ({VAR, -1, -1, 0.0, name});
+  c.nodes.push_back ({VAR, -1, -1, 0.0, name, true});
   return int(c.nodes.size()) - 1;
 }
 
@@ -83,7 +83,7 @@ inline int mk (Op op, int a, int b = -1) {
   auto key = std::make_tuple (int(op), a, b);
   auto it = c.cons.find (key);
   if (it != c.cons.end()) return it->second;
-  c.nodes.push_back ({op, a, b, 0.0, ""});
+  c.nodes.push_back ({op, a, b, 0.0, "", c.nodes[a].hasvar || (b >= 0 && c.nodes[b].hasvar)});
   int id = int(c.nodes.size()) - 1;
   c.cons[key] = id;
   return id;
@@ -173,8 +173,9 @@ inline bool symx_decide (symx::Cmp c, const Sym& a, const Sym& b, bool shadow)
 {
   symx::Ctx& cx = symx::ctx();
   bool outcome = shadow;
-  // a comparison of two literals is a concrete fact, not a decision
-  bool concrete = cx.nodes[a.id].op == symx::LIT && cx.nodes[b.id].op == symx::LIT;
+  // a comparison of two variable-free expressions is a concrete fact (decided in
+  // binary64 by the shadow values), not a decision
+  bool concrete = !cx.nodes[a.id].hasvar && !cx.nodes[b.id].hasvar;
   if (!concrete) {
     if (cx.forced && cx.ndecisions < cx.script.size())
       outcome = cx.script[cx.ndecisions] != 0;
@@ -189,7 +190,7 @@ inline Sym::operator unsigned () const
 {
   symx::Ctx& cx = symx::ctx();
   long k = long(v);
-  if (cx.nodes[id].op != symx::LIT && cx.record)
+  if (cx.nodes[id].hasvar && cx.record)
     cx.pc.push_back ({symx::TRUNC, id, -1, true, k});
   return unsigned(k);
 }
@@ -197,7 +198,7 @@ inline Sym::operator int () const
 {
   symx::Ctx& cx = symx::ctx();
   long k = long(v);
-  if (cx.nodes[id].op != symx::LIT && cx.record)
+  if (cx.nodes[id].hasvar && cx.record)
     cx.pc.push_back ({symx::TRUNC, id, -1, true, k});
   return int(k);
 }
